@@ -68,6 +68,12 @@ type rawVal []byte
 func (r rawVal) Marshal(b *bytes.Buffer) { b.Write(r) }
 func (r rawVal) Bytes() []byte           { return append([]byte(nil), r...) }
 
+// mutVal is a Marshallable the caller goes on changing after it has handed it to the library.
+type mutVal struct{ b []byte }
+
+func (m *mutVal) Marshal(b *bytes.Buffer) { b.Write(m.b) }
+func (m *mutVal) Bytes() []byte           { return append([]byte(nil), m.b...) }
+
 // rawSink is the harness's own Unmarshallable. It records whether and with
 // what it was called.
 type rawSink struct {
